@@ -282,6 +282,232 @@ Definition ext_swap (c : cfg) (dv : jval) (from path : list sseg) : option jval 
   | _, _ => None
   end.
 
+(* ================================================================== the library's reading, complete: every operation kind.
+   `lib_op` extends `rfc_op` (used with the lenient configuration) by the three documented extensions and by the operation
+   code 0 (an operation object without an "op" member), exactly as _jbl_target_apply_patch treats them.  The documented
+   meaning of each extension is the ext_* function above; the lib_* function adds the cases the one-line descriptions do not
+   cover.  Locations are compared as NODES by the library (pointers), here as positions: the child indices from the root. *)
+Fixpoint lookup_pos (k : sseg) (ms : list (sseg * jval)) : option nat :=
+  match ms with
+  | [] => None
+  | (k', _) :: r => if bytes_eqb k' k then Some O else match lookup_pos k r with Some i => Some (S i) | None => None end
+  end.
+Definition jstep (c : cfg) (v : jval) (s : sseg) : option nat :=
+  match v with
+  | JObj ms => lookup_pos s ms
+  | JArr l => aidx c l s
+  | _ => None
+  end.
+Definition jkids (v : jval) : list jval :=
+  match v with JObj ms => map snd ms | JArr l => l | _ => [] end.
+Fixpoint jlocate (c : cfg) (v : jval) (p : list sseg) : option (list nat) :=
+  match p with
+  | [] => Some []
+  | s :: r => match jstep c v s with
+              | None => None
+              | Some i => match nth_error (jkids v) i with
+                          | None => None
+                          | Some x => match jlocate c x r with Some l => Some (i :: l) | None => None end
+                          end
+              end
+  end.
+Fixpoint jget_at (v : jval) (pos : list nat) : option jval :=
+  match pos with
+  | [] => Some v
+  | i :: r => match nth_error (jkids v) i with Some x => jget_at x r | None => None end
+  end.
+(* replace the i-th child (a member keeps its name) *)
+Definition jset_kid (v : jval) (i : nat) (x : jval) : jval :=
+  match v with
+  | JObj ms => JObj (firstn i ms ++ match nth_error ms i with Some (k, _) => [(k, x)] | None => [] end ++ skipn (S i) ms)
+  | JArr l => JArr (firstn i l ++ x :: skipn (S i) l)
+  | _ => v
+  end.
+Definition jdel_kid (v : jval) (i : nat) : jval :=
+  match v with
+  | JObj ms => JObj (firstn i ms ++ skipn (S i) ms)
+  | JArr l => JArr (firstn i l ++ skipn (S i) l)
+  | _ => v
+  end.
+Fixpoint jset_at (v : jval) (pos : list nat) (x : jval) : option jval :=
+  match pos with
+  | [] => Some x
+  | i :: r => match nth_error (jkids v) i with
+              | Some y => match jset_at y r x with Some y' => Some (jset_kid v i y') | None => None end
+              | None => None
+              end
+  end.
+Fixpoint jremove_at (v : jval) (pos : list nat) : option jval :=
+  match pos with
+  | [] => None
+  | i :: r => match nth_error (jkids v) i with
+              | Some y => match r with
+                          | [] => Some (jdel_kid v i)
+                          | _ => match jremove_at y r with Some y' => Some (jset_kid v i y') | None => None end
+                          end
+              | None => None
+              end
+  end.
+Fixpoint np_prefix (a b : list nat) : bool :=
+  match a, b with
+  | [], _ => true
+  | x :: a', y :: b' => Nat.eqb x y && np_prefix a' b'
+  | _, _ => false
+  end.
+
+(* "Value increment": the sum as the library computes it (int64 two's complement wrap-around, the double operations given) *)
+Definition num_sum (fadd : Z -> Z -> Z) (fofi ftoi : Z -> Z) (a v : jval) : option jval :=
+  match a, v with
+  | JI64 x, JI64 y => Some (JI64 (sw 64 (x + y)))
+  | JI64 x, JF64 y => Some (JI64 (sw 64 (x + ftoi y)))
+  | JF64 x, JI64 y => Some (JF64 (fadd x (fofi y)))
+  | JF64 x, JF64 y => Some (JF64 (fadd x y))
+  | _, _ => None
+  end.
+(* the mathematical reading of "increment" for integers: defined only when the sum is an int64 *)
+Definition int_sum_exact (a v : jval) : option jval :=
+  match a, v with
+  | JI64 x, JI64 y => if (- 9223372036854775808 <=? x + y) && (x + y <? 9223372036854775808) then Some (JI64 (x + y)) else None
+  | _, _ => None
+  end.
+
+(* add_create when the parent of `path` does not resolve: walk from the root; an existing member must be an object, a
+   missing one is created as an empty object (appended; the root may also be an array or - without visible effect - a scalar) *)
+Fixpoint create_spec (c : cfg) (v : jval) (p : list sseg) (x : jval) : option jval :=
+  match p with
+  | [] => None
+  | s :: r =>
+    match r with
+    | [] => add_here c x v s
+    | _ =>
+      match jstep c v s with
+      | Some i =>
+        match nth_error (jkids v) i with
+        | Some (JObj ys) => match create_spec c (JObj ys) r x with Some y' => Some (jset_kid v i y') | None => None end
+        | _ => None
+        end
+      | None =>
+        match create_spec c (JObj []) r x with
+        | Some y' => Some (match v with JObj ms => JObj (ms ++ [(s, y')]) | JArr l => JArr (l ++ [y']) | _ => v end)
+        | None => None
+        end
+      end
+    end
+  end.
+Definition lib_add_create (c : cfg) (dv : jval) (path : list sseg) (x : jval) : option jval :=
+  match jget c dv (removelast path) with
+  | Some _ => s_add c dv path x
+  | None => create_spec c dv path x
+  end.
+
+(* swap: `path` addresses an existing child of its parent?  (arrays: an index below the length; "-" never does) *)
+Definition swap_kid (c : cfg) (parent : jval) (s : sseg) : option nat :=
+  match parent with
+  | JObj ms => lookup_pos s ms
+  | JArr l => if s_is_dash s then None
+              else match c_ins c s with
+                   | Some i => if (0 <=? i) && (i <? Z.of_nat (length l)) then Some (Z.to_nat i) else None
+                   | None => None
+                   end
+  | _ => None
+  end.
+Definition lib_swap (c : cfg) (dv : jval) (from path : list sseg) : option jval :=
+  match jlocate c dv from, jget c dv from with
+  | Some pf, Some a =>
+    match jlocate c dv (removelast path) with
+    | None => None
+    | Some pp =>
+      match jget_at dv pp with
+      | None => None
+      | Some parent =>
+        match swap_kid c parent (last path []) with
+        | Some i =>
+          let pc := pp ++ [i] in
+          match jget_at dv pc with
+          | None => None
+          | Some b =>
+            if np_prefix pf pc && np_prefix pc pf then Some dv
+            else if np_prefix pf pc then jset_at dv pf b          (* from contains path: from := the descendant's value *)
+            else if np_prefix pc pf then jset_at dv pc a          (* path contains from *)
+            else match jset_at dv pf b with Some d1 => jset_at d1 pc a | None => None end
+          end
+        | None =>
+          match s_add c dv path a with
+          | None => None
+          | Some d1 => jremove_at (if np_prefix pf pp then dv else d1) pf
+          end
+        end
+      end
+    end
+  | _, _ => None
+  end.
+
+Definition as_add (o : sop) : sop := {| s_op := SAdd; s_path := s_path o; s_from := s_from o; s_val := s_val o |}.
+
+Definition lib_op (c : cfg) (feq : Z -> Z -> bool) (fadd : Z -> Z -> Z) (fofi ftoi : Z -> Z)
+                  (d : option jval) (o : sop) : option (option jval) :=
+  let path := s_path o in
+  match s_op o with
+  | SNone => if s_is_root c path then Some d else rfc_op c feq d (as_add o)
+  | SIncrement =>
+    if s_is_root c path then Some d
+    else match s_val o, d with
+         | Some v, Some dv => option_map Some (ext_increment c fadd fofi ftoi dv path v)
+         | _, _ => None
+         end
+  | SAddCreate =>
+    match s_val o with
+    | None => None
+    | Some v =>
+      if s_is_root c path then Some (Some v)
+      else match d with
+           | Some dv => option_map Some (lib_add_create c dv path v)
+           | None => match path with _ :: _ :: _ => Some None | _ => None end      (* after the root was removed *)
+           end
+    end
+  | SSwap =>
+    match s_from o with
+    | Some [] => None
+    | _ =>
+      if s_is_root c path then Some d
+      else match s_from o, d with
+           | Some f, Some dv => option_map Some (lib_swap c dv f path)
+           | _, _ => None
+           end
+    end
+  | _ => rfc_op c feq d o
+  end.
+
+Fixpoint lib_program (c : cfg) (feq : Z -> Z -> bool) (fadd : Z -> Z -> Z) (fofi ftoi : Z -> Z)
+                     (d : option jval) (l : list sop) : option (option jval) :=
+  match l with
+  | [] => Some d
+  | o :: l' => match lib_op c feq fadd fofi ftoi d o with Some d' => lib_program c feq fadd fofi ftoi d' l' | None => None end
+  end.
+
+(* rfc6901 pointer text -> reference tokens: "" is the whole document; otherwise "/"-separated tokens with ~0 = "~", ~1 = "/";
+   any other use of "~" is an error.  `cur` is the token being read, reversed. *)
+Fixpoint rfc6901_tokens (s : list Z) (cur : list Z) : option (list sseg) :=
+  match s with
+  | [] => Some [rev cur]
+  | 47 :: r => match rfc6901_tokens r [] with Some l => Some (rev cur :: l) | None => None end
+  | 126 :: 48 :: r => rfc6901_tokens r (126 :: cur)
+  | 126 :: 49 :: r => rfc6901_tokens r (47 :: cur)
+  | 126 :: _ => None
+  | ch :: r => rfc6901_tokens r (ch :: cur)
+  end.
+Definition rfc6901 (s : list Z) : option (list sseg) :=
+  match s with
+  | [] => Some []
+  | 47 :: r => rfc6901_tokens r []
+  | _ => None
+  end.
+
+(* the library's one deviation from rfc6901 syntax: a pointer of more than one character that ends in "/" (its last reference
+   token is empty) is rejected *)
+Definition lib_ptr (s : list Z) : option (list sseg) :=
+  if (1 <? Z.of_nat (length s)) && (match rev s with 47 :: _ => true | _ => false end) then None else rfc6901 s.
+
 (* ---- rfc7386 *)
 Fixpoint merge_spec (t : option jval) (p : jval) {struct p} : jval :=
   match p with
